@@ -11,12 +11,14 @@ GEN = ["Handlers"]
 VO = ["Properties/C04.vo", "Properties/C03.vo", "Properties/C15.vo", "Extract/D_Client.vo", "Extract/D_Server.vo"]
 MODULE = "Properties.C04"
 THEOREMS = ["c04_set_then_get_partial", "c04_other_keys_untouched", "c04_found_own", "c04_reply_roundtrip", "c04_server_invariant",
-            "c04_e2e_get", "c04_e2e_gets", "c04_e2e_get_many", "c04_e2e_set_then_get", "c04_e2e_set_keeps_other", "c04_src_handlers"]
+            "c04_e2e_get", "c04_e2e_gets", "c04_e2e_get_many", "c04_e2e_set_then_get", "c04_roundtrips_native", "c04_e2e_set_then_get_any",
+            "c04_e2e_set_keeps_other", "c04_src_handlers"]
 DRIVER = "D_Client"
-TECHNIQUE = ("Coq proof (partial): end to end on the Client model with the specification server as peer - get/gets/get_many return "
-             "exactly the live items under the caller's keys, set followed by get returns the stored value for any bytes, a set leaves "
-             "other keys' reads unchanged, nothing is left unread; plus the server-side and reply-framing theorems; pickled values "
-             "(C15) and reconnecting calls are covered by differential and round-trip runs against the real classes")
+TECHNIQUE = ("Coq proof: end to end on the Client model with the specification server as peer - get/gets/get_many return "
+             "exactly the live items under the caller's keys, set followed by get returns the stored value for any bytes and, with "
+             "PickleSerde/CompressedSerde, any value the pickle and codec oracles round-trip; a set leaves other keys' reads unchanged, "
+             "nothing is left unread; plus the server-side and reply-framing theorems; model tied to base.py and serde.py by differential "
+             "runs (store-then-fetch sequences, three serializer configurations) and round trips on the three client classes")
 LEVEL_TEXT = ("c04_set_then_get_partial, c04_other_keys_untouched, c04_found_own: for every server state, key, flags, expiry and data "
               "a set followed by a get before expiry returns exactly those bytes and flags under that key, stores never change other "
               "keys, and a retrieval lists each present requested key with its own item; c04_reply_roundtrip: for ANY data bytes "
@@ -25,19 +27,24 @@ LEVEL_TEXT = ("c04_set_then_get_partial, c04_other_keys_untouched, c04_found_own
               "and Spec/Server as the peer, for every server state, configuration (prefix, encoding, serializer) and key, the call "
               "returns the deserialised live item under the caller's own key object (the default / an absent entry otherwise), the "
               "server state is unchanged and nothing is left unread; for get_many with any number of keys whose wire keys differ. "
-              "c04_e2e_set_then_get: set then get returns the value stored - for bytes/str/int with the serializer, the stored bytes "
-              "without one - whatever bytes it contains; c04_e2e_set_keeps_other: a set does not change what a get of another key "
-              "returns. c04_server_invariant: the side condition (non-negative flags and cas versions) holds in every reachable server "
-              "state. PARTIAL: values that go through pickle/compression (oracles; C15's theorems), explicit flags, calls that "
-              "reconnect first and HashClient/PooledClient stacks are checked (round trips over key/value/serde/prefix/"
-              "segmentation/collection-type grids), not proved end to end.")
+              "c04_e2e_set_then_get: set then get returns the value stored - the stored bytes without a serializer, the value itself with "
+              "PickleSerde or CompressedSerde whenever the serializer round-trips it - whatever bytes it contains; c04_roundtrips_native: "
+              "every bytes/str/int value does, with no assumption; c04_e2e_set_then_get_any: ANY value comes back as itself (same "
+              "constructor = same type) provided pickle round-trips that value and, for CompressedSerde, the codec round-trips (pickle, "
+              "the codec, the pickle protocol and min_compress_len are parameters of the configuration). c04_e2e_set_keeps_other: a set "
+              "does not change what a get of another key returns. c04_server_invariant: the side condition (non-negative flags and cas "
+              "versions) holds in every reachable server state. PooledClient and HashClient return what Client returns on the connection "
+              "they use (C16); calls that connect first: C01's c01_ready theorems; a caller-supplied flags argument replaces the "
+              "serializer's flags and is outside the property.")
 LEVEL_NOTE = ("Trusted: Coq kernel; Spec/Server.v, Spec/Reply.v as readings of protocol.txt (compared with harness/refserver.py); the "
-              "hand model's correspondence with base.py; pickle and zlib/lz4 themselves. No axioms.")
+              "hand model's correspondence with base.py and serde.py; pickle and the compression codecs are oracles (hypotheses of the "
+              "theorem, as in C15). No axioms.")
 TRUSTED = ["Coq 8.16.1 kernel; no axioms",
            "coq/Spec/{Server,Reply}.v and harness/refserver.py (compared on every run)",
            "hand-written model coq/Model/Client.v tied to base.py by this check's correspondence run",
            "extraction: ExtrOcamlBasic only; coq/Extract/ocaml/driver.ml"]
-ASSUMPTIONS = ["a faithful memcached = Spec/Server.v; item size limit not modelled", "pickle.loads(pickle.dumps(v)) == v for the values used"]
+ASSUMPTIONS = ["a faithful memcached = Spec/Server.v; item size limit not modelled",
+               "pickle.loads(pickle.dumps(v)) == v for the value stored and decompress(compress(b)) == b (hypotheses of c04_e2e_set_then_get_any)"]
 
 NASTY = [b"", b"v", b"\r\n", b"END\r\n", b"\r\nEND\r\n", b"VALUE k 0 1\r\nz\r\nEND\r\n", b"x" * 4094, b"x" * 4095, b"x" * 4096, b"x" * 4097, b"y" * 8192,
          b"a\r\nb" * 1500, bytes(range(256)) * 3, b"\x00", b"STORED\r\n", b"ERROR\r\n"]
@@ -218,7 +225,7 @@ def correspondence(ctx):
     hk = cs.handler_kinds()
     reqs, impl, cases = [], [], []
     for i in range(200 if ctx.quick else 2000):
-        c = dict(tcp=False, prefix=rng.choice([b"", b"p:"]), default_noreply=False, ignore_exc=False, serde=rng.choice([0, 1]), unicode=True, enc=rng.choice([0, 1]))
+        c = dict(tcp=False, prefix=rng.choice([b"", b"p:"]), default_noreply=False, ignore_exc=False, serde=rng.choice([0, 1, 1, 2, 3, 12]), unicode=True, enc=rng.choice([0, 1]))
         k, v = rng.choice(KEYS[:5]), rng.choice(NASTY[:8] + ["text", 5])
         ops = [(0, 0, k, v, 0, False, None), (3, k, None), (4, k, None, None), (7, rng.random() < 0.3, [b"zz", k]), (8, False, [k, b"q"])]
         srv = Server()
@@ -236,7 +243,8 @@ def correspondence(ctx):
             "rule": "the real fetch loop (get_many/gets_many) vs the extracted strict reply reader of Spec/Reply.v on %d retrieval replies (0-3 items, data "
                     "from a nasty corpus incl. CR LF/END/VALUE lines and sizes 4094..8192, random recv chunking; one-byte framing damage as near misses): "
                     "same items; extracted Client model vs the real Client on %d store-then-fetch sequences (get, gets, get_many incl. one-shot "
-                    "iterators, gets_many) with the reference server's replies" % (nr_, len(cases)),
+                    "iterators, gets_many) with the reference server's replies; serializer none / PickleSerde / CompressedSerde with the identity codec "
+                    "and min_compress_len 0, 1, 10 (native values, so the pickle oracle is never reached)" % (nr_, len(cases)),
             "samples": [{"with_cas": a, "reply": repr(r)[:100]} for a, b, cc, r, d in rc[:2]],
             "distribution": {"reply_cases": nr_, "sequences": len(cases)}, "disagreements": dis}
 
